@@ -11,7 +11,9 @@ import (
 	"os/exec"
 	"path/filepath"
 	"runtime"
+	"runtime/pprof"
 	"sort"
+	"strconv"
 	"strings"
 	"sync"
 	"time"
@@ -191,6 +193,7 @@ func SafeImpl(p *Prop, line string) (res string) {
 	case s := <-done:
 		return s
 	case <-time.After(90 * time.Second): // generous: the machine may be heavily loaded
+		abandoned.Store(line, true)
 		return "timeout"
 	}
 }
@@ -221,19 +224,68 @@ func RunImpl(p *Prop, lines []string) []string {
 	ch := make(chan int, 1024)
 	for w := 0; w < workers; w++ {
 		wg.Add(1)
+		w := w
 		go func() {
 			defer wg.Done()
 			for i := range ch {
+				inflight.Store(w, lines[i])
 				out[i] = SafeImpl(p, lines[i])
 			}
 		}()
 	}
+	stop := make(chan struct{})
+	defer close(stop)
+	go memWatch(stop)
 	for i := range lines {
 		ch <- i
 	}
 	close(ch)
 	wg.Wait()
 	return out
+}
+
+// inflight: the request each worker is executing (for the memory watchdog's report).
+var inflight sync.Map
+
+// abandoned: requests whose goroutine was given up on after the time limit (it may still be running)
+var abandoned sync.Map
+
+// memWatch aborts the run (exit 3, with the requests in flight named on stderr) when the heap
+// passes VERIF_HEAP_LIMIT_GB (default 40): an abandoned built-in loop cannot be stopped from outside,
+// and letting the kernel OOM-kill the process loses the culprit.
+func memWatch(stop chan struct{}) {
+	limit := uint64(40)
+	if v, err := strconv.Atoi(os.Getenv("VERIF_HEAP_LIMIT_GB")); err == nil && v > 0 {
+		limit = uint64(v)
+	}
+	t := time.NewTicker(250 * time.Millisecond)
+	defer t.Stop()
+	for {
+		select {
+		case <-stop:
+			return
+		case <-t.C:
+			var ms runtime.MemStats
+			runtime.ReadMemStats(&ms)
+			if ms.HeapAlloc > limit<<30 {
+				fmt.Fprintf(os.Stderr, "memory watchdog: heap %d GiB > %d GiB; requests in flight:\n", ms.HeapAlloc>>30, limit)
+				inflight.Range(func(k, v any) bool { fmt.Fprintf(os.Stderr, "  %v\n", v); return true })
+				fmt.Fprintf(os.Stderr, "requests abandoned after the time limit (possibly still running):\n")
+				abandoned.Range(func(k, v any) bool { fmt.Fprintf(os.Stderr, "  %v\n", k); return true })
+				if pf := os.Getenv("VERIF_HEAP_PROFILE"); pf != "" {
+					if f, err := os.Create(pf); err == nil {
+						pprof.WriteHeapProfile(f)
+						f.Close()
+					}
+					if f, err := os.Create(pf + ".goroutines"); err == nil {
+						pprof.Lookup("goroutine").WriteTo(f, 1)
+						f.Close()
+					}
+				}
+				os.Exit(3)
+			}
+		}
+	}
 }
 
 // ---------------------------------------------------------------- known findings
